@@ -96,6 +96,15 @@ def body_split(c, ctx):
         if not np.array_equal(parts[k][0], x[ix[k]]):
             ctx.fail('split_values', f'component {k}', **sig)
         fk = bk.interpolate(x[ix[k]])
+        # the component basis the library itself hands out with split(): same points (its quadrature follows the whole basis)
+        fl = parts[k][1].interpolate(parts[k][0])
+        for a, w_ in fields_of(fk).items():
+            g = fields_of(fl).get(a)
+            if g is None or g.shape != w_.shape or not np.allclose(g, w_, rtol=0, atol=1e-11 * (1 + np.abs(w_).max())):
+                ctx.fail('split_basis_interpolate', f'{a} of component {k} of {lab}: the basis returned by split() interpolates the split '
+                         f'vector differently from a component basis with the quadrature of the whole '
+                         f'({"shape " + str(None if g is None else g.shape) + " vs " + str(w_.shape) if g is None or g.shape != w_.shape else np.abs(g - w_).max()})', **sig)
+                return
         if eld['cls'] == 'ElementComposite':
             fw = whole[k]
             got, want = fields_of(fw), fields_of(fk)
